@@ -5,37 +5,37 @@ V = os.path.dirname(os.path.dirname(os.path.abspath(__file__)))
 
 MC = "model_checking"
 CLAIMS = {
- "C01": (MC, "Bounded symbolic execution of the real parser (CBMC): base case (garbage struct -> init, accepted or rejected) establishes a representation invariant, an induction step from an ARBITRARY invariant state decides memory safety of one call of every public function (so call sequences of any length), API-only scripts on arbitrary bytes give replayable findings; exactly-sized objects make one stray byte a solver counterexample.",
+ "C01": (MC, "Bounded symbolic execution of the real parser (CBMC): base case (garbage struct -> init, accepted or rejected) establishes a representation invariant, an induction step from an ARBITRARY invariant state decides memory safety of one call of every public function (so call sequences of any length), API-only scripts on arbitrary bytes (incl. protocol-violating op sequences, nesting one deeper than the state array, 255/256 nested objects with max_depth 255) give replayable findings; exactly-sized objects make one stray byte a solver counterexample.",
          "H-BASE/H-STEP induction + H-SCRIPT (CBMC, SAT)", "5/C01"),
- "C02": (MC, "Differential: binson_parser_verify on ALL byte strings of length n (all 256^n at once, per query) equals an independent reference recogniser, including the MAX_DEPTH error codes; token-level queries decide the shortest-form and length rules for every encoding.",
-         "H-DOC differential vs reference recogniser (CBMC, SAT)", "5/C02"),
+ "C02": (MC, "Differential: binson_parser_verify on ALL byte strings of length n (all 256^n at once, per query) equals an independent reference recogniser, including the MAX_DEPTH error codes; token-level queries decide the shortest-form and length rules for every encoding (all lengths to INT32_MAX via a symbolic claimed buffer size); every tree shape with unconstrained payload (names symbolic); 254..257 nested arrays through verify itself.",
+         "H-DOC / H-TOKEN / H-SHAPE-DOC / H-DEEP differential vs reference recogniser (CBMC, SAT)", "5/C02"),
  "C03": (MC, "Every token kind and width with a fully symbolic payload (all int64 encodings per width, all double bit patterns, all contents) and all tree shapes up to T tokens are traversed; names/values compared by pointer and value with a reference tokenizer; getter neutrality also from an arbitrary state.",
          "H-SHAPE token/tree traversals + H-STEP getters (CBMC, SAT)", "5/C03"),
  "C04": (MC, "Writer step from an arbitrary writer state (any counter incl. near SIZE_MAX, any error) and K-call sequences with symbolic kinds/arguments against a reference writer, destination object of exactly `capacity` bytes, one query per capacity.",
          "H-WSTEP/H-WSEQ vs reference encoder (CBMC, SAT)", "5/C04"),
  "C05": (MC, "Every scalar write for all int64 / all doubles / all lengths equals the reference canonical encoder; well-formed shapes with symbolic names/values are accepted by the reference recogniser, binson_parser_verify, binson_writer_verify and decode back to the written values.",
          "H-WSTEP canonical bytes + H-WRT round trip (CBMC, SAT)", "5/C05"),
- "C06": (MC, "All tree shapes up to T tokens x every traversal variant (full, one container skipped / raw-extracted, early leave at every position), and all stack-consistent call scripts up to K calls on ALL valid n-byte documents, compared call by call with a reference cursor.",
+ "C06": (MC, "All tree shapes up to T tokens x every traversal variant (full, one container skipped / raw-extracted, early leave at every position), nesting chains, container-sibling pairs, every tree up to 10 tokens over one scalar kind (thorough), and all stack-consistent call scripts up to K calls on ALL valid n-byte documents, compared call by call with a reference cursor.",
          "H-SHAPE + H-SCRIPT vs reference cursor (CBMC, SAT)", "5/C06"),
  "C07": (MC, "Lookup scripts with SYMBOLIC searched names and symbolic field names on object shapes with 1-3 fields (prefix pairs, 0x00, >=0x80 all included by symbolism) and on all valid n-byte objects, compared with a reference lookup; the three-way compare kernel for all contents up to 4 bytes.",
          "H-SHAPE/H-SCRIPT lookups vs reference lookup + H-LEAF (CBMC, SAT)", "5/C07"),
  "C08": (MC, "Parser-driven traversals on ARBITRARY bytes that end by leaving the root: success <=> the reference recogniser accepts; plus every single-byte mutation of the structure of every small shape, for full / skipping / leave-at-once traversals.",
          "H-SCRIPT (parser-driven) + H-MUT vs reference recogniser (CBMC, SAT)", "5/C08"),
- "C09": (MC, "From an ARBITRARY parser/writer state with an error set, one call of every public function: returns false/neutral, nothing advances, nothing is stored, error stays; inductive, hence for any call sequence after the first error.",
-         "H-STEP/H-WSTEP latch induction (CBMC, SAT)", "5/C09"),
+ "C09": (MC, "From an ARBITRARY parser/writer state with an error set, one call of every public function: returns false/neutral, nothing advances, nothing is stored, error stays; inductive, hence for any call sequence after the first error; plus an API-only form (documents with one symbolic structure byte, calls continue after the error) that yields replayable findings.",
+         "H-STEP/H-WSTEP latch induction + API-only latch scripts (CBMC, SAT)", "5/C09"),
  "C10": (MC, "For every token kind/width (full symbolic payload) and every tree shape up to T tokens the decoded items handed to the writer reproduce the input byte for byte; also all valid n-byte documents for short full-traversal scripts.",
          "H-SHAPE transcription (CBMC, SAT)", "5/C10"),
  "C11": (MC, "get_raw / parser_to_writer on every container position of every tree shape up to T tokens: span == BEGIN..matching END by pointer, span valid standalone, writer gets exactly those bytes, next continues with the following element; on scalars false and nothing changes.",
          "H-SHAPE raw variants vs reference cursor (CBMC, SAT)", "5/C11"),
- "C12": (MC, "Two parser objects with different arbitrary prior contents are field-wise equal after init; reset / successful verify from ANY invariant state equals the init state; verify twice gives the same verdict; writer init/reset from arbitrary contents.",
-         "H-2RUN self-composition + H-STEP reset/verify (CBMC, SAT)", "5/C12"),
+ "C12": (MC, "Two parser objects with different arbitrary prior contents are field-wise equal after init; every shape x every abandon point: prefix of the traversal, reset or verify, then the full traversal against the reference cursor (= a fresh parser); reset / successful verify from ANY invariant state equals the init state; verify twice gives the same verdict; writer init/reset from arbitrary contents.",
+         "H-SHAPE reuse scripts + H-2RUN self-composition + H-STEP reset/verify (CBMC, SAT)", "5/C12"),
  "C13": (MC, "to_string with a SYMBOLIC capacity (every capacity in one query) under a contract model of snprintf that asserts every store lands below the capacity: size protocol exact for all small documents and shapes.",
          "H-PRINT with libc contract model, symbolic capacity (CBMC, SAT)", "5/C13"),
  "C14": (MC, "Text of to_string and captured output of print equal a reference renderer byte for byte for all valid small documents and all tree shapes up to T tokens (separator placement is structural).",
          "H-PRINT vs reference renderer (CBMC, SAT)", "5/C14"),
- "C16": (MC, "Unwinding assertions with bounds linear in n are discharged for every loop from every invariant state (termination); a counting callback bounds tokens processed by bytes advanced + 2 per call.",
-         "unwinding assertions + counting callback in H-STEP/H-DOC (CBMC, SAT)", "5/C16"),
- "C17": ("other", "Solver-decided: allocator stubs containing assert(0) unreachable from every public function, recursion bound 0 for every library function, non-interference of independent objects; plus a symbol-table side condition (no writable statics). Object-code stack figures are outside a source-level solver.",
+ "C16": (MC, "Unwinding assertions with bounds linear in n are discharged for every loop from every invariant state (termination); a counting callback bounds tokens processed by bytes advanced + 2 per call along traversals, lookups and protocol-violating op sequences on shapes; an unwinding assertion that fails with doubled bounds is replayed natively and a run that does not return is reported as non-termination.",
+         "unwinding assertions + counting callback in H-STEP/H-DOC/H-SHAPE/H-ANY, hang confirmation by native replay (CBMC, SAT)", "5/C16"),
+ "C17": ("other", "Solver-decided: allocator stubs containing assert(0) unreachable from every public function, recursion bound 0 for every library function, non-interference of independent objects (parser/parser, parser/writer, writer/writer, print/print); plus a symbol-table side condition (no writable statics, no variable-length arrays). Object-code stack figures are outside a source-level solver.",
          "reachability of allocator stubs + recursion unwinding + H-2RUN (CBMC, SAT); symbol table side condition", "5/C17"),
  "C18": (MC, "The differential harnesses hold against the same reference under three data models (LP64 signed char, LP64 unsigned char, ILP32 unsigned char) with all UB checks on: no undefined behaviour on reachable paths, identical observables.",
          "H-CFG data-model matrix with UB checks (CBMC, SAT)", "5/C18"),
